@@ -5,6 +5,8 @@ import PgModel.C05Store
 import PgModel.C05Typed
 import PgModel.C05Handles
 import PgModel.C05Dna
+import PgModel.C05Spec
+import PgModel.C05Geno
 import PgGen.C05Sig
 open Pg Pg.C05
 
@@ -265,6 +267,102 @@ def wireFloat : FloatText :=
         | _, _ => none
       | _ => none }
 
+/-! Value-spec wire (harness/c05.py `vs_wire`) -/
+
+def optIntOfJ : J → Option (Option Int)
+  | .null => some none
+  | .int i => some (some i)
+  | _ => none
+
+def optStrOfJ : J → Option (Option Str)
+  | .null => some none
+  | .str s => some (some (ofS s))
+  | _ => none
+
+def optTreeOfJ : J → Option (Option Tree)
+  | .obj [("absent", _)] => some none
+  | j => (treeOfJ j).map some
+
+def vflagsOfJ : J → Option VFlags
+  | .arr [.bool n, d, .bool fz] => (optTreeOfJ d).map fun d' => ⟨n, d', fz⟩
+  | _ => none
+
+def vkeyOfJ : J → Option VKey
+  | .arr [.str "c", .str t] => some (.const (ofS t))
+  | .arr [.str "k", r] => (optStrOfJ r).map .strKey
+  | .arr [.str "lk", .int mn, mx] => (optIntOfJ mx).map (.listKey mn)
+  | .arr [.str "tk", i] => (optIntOfJ i).map .tupleKey
+  | _ => none
+
+mutual
+  partial def vsOfJ : J → Option VS
+    | .arr [.str "any", f] => (vflagsOfJ f).map .any
+    | .arr [.str "bool", f] => (vflagsOfJ f).map .bool
+    | .arr [.str "int", lo, hi, f] => do pure (.int (← optIntOfJ lo) (← optIntOfJ hi) (← vflagsOfJ f))
+    | .arr [.str "float", lo, hi, f] => do pure (.float (← optStrOfJ lo) (← optStrOfJ hi) (← vflagsOfJ f))
+    | .arr [.str "str", r, f] => do pure (.str (← optStrOfJ r) (← vflagsOfJ f))
+    | .arr [.str "enum", .arr vs, f] => do pure (.enum (← vs.mapM treeOfJ) (← vflagsOfJ f))
+    | .arr [.str "list", e, .int mn, mx, f] => do pure (.list (← vsOfJ e) mn (← optIntOfJ mx) (← vflagsOfJ f))
+    | .arr [.str "tuplef", .arr es, f] => do pure (.tupleFixed (← es.mapM vsOfJ) (← vflagsOfJ f))
+    | .arr [.str "tuplev", e, .int mn, mx, f] => do pure (.tupleVar (← vsOfJ e) mn (← optIntOfJ mx) (← vflagsOfJ f))
+    | .arr [.str "dict", .null, .bool ex, f] => do pure (.dict none ex (← vflagsOfJ f))
+    | .arr [.str "dict", sc, .bool ex, f] => do pure (.dict (some (← vschemaOfJ sc)) ex (← vflagsOfJ f))
+    | .arr [.str "obj", .str c, f] => do pure (.obj (ofS c) (← vflagsOfJ f))
+    | .arr [.str "type", .str c, d, .bool n, .bool fz] => do pure (.type (ofS c) (← optStrOfJ d) n fz)
+    | .arr [.str "union", .arr cs, f] => do pure (.union (← cs.mapM vsOfJ) (← vflagsOfJ f))
+    | .arr [.str "callable", .arr args, .null, f] => do pure (.callable (← args.mapM vsOfJ) none (← vflagsOfJ f))
+    | .arr [.str "callable", .arr args, r, f] => do pure (.callable (← args.mapM vsOfJ) (some (← vsOfJ r)) (← vflagsOfJ f))
+    | _ => none
+  partial def vfieldOfJ : J → Option VField
+    | .arr [.str "field", k, v, d, md] => do
+      pure (.mk (← vkeyOfJ k) (← vsOfJ v) (← optStrOfJ d) (← optTreeOfJ md))
+    | _ => none
+  partial def vschemaOfJ : J → Option VSchema
+    | .arr [.str "schema", .arr fs, name, .bool anc, md] => do
+      pure (.mk (← fs.mapM vfieldOfJ) (← optStrOfJ name) anc (← optTreeOfJ md))
+    | _ => none
+end
+
+def optIntToJ : Option Int → J
+  | none => .null
+  | some i => .int i
+def optStrToJ : Option Str → J
+  | none => .null
+  | some s => .str (toS s)
+def optTreeToJ : Option Tree → J
+  | none => .obj [("absent", .bool true)]
+  | some t => treeToJ t
+def vflagsToJ (f : VFlags) : J := .arr [.bool f.noneable, optTreeToJ f.default, .bool f.frozen]
+def vkeyToJ : VKey → J
+  | .const t => .arr [.str "c", .str (toS t)]
+  | .strKey r => .arr [.str "k", optStrToJ r]
+  | .listKey mn mx => .arr [.str "lk", .int mn, optIntToJ mx]
+  | .tupleKey i => .arr [.str "tk", optIntToJ i]
+
+mutual
+  partial def vsToJ : VS → J
+    | .any f => .arr [.str "any", vflagsToJ f]
+    | .bool f => .arr [.str "bool", vflagsToJ f]
+    | .int lo hi f => .arr [.str "int", optIntToJ lo, optIntToJ hi, vflagsToJ f]
+    | .float lo hi f => .arr [.str "float", optStrToJ lo, optStrToJ hi, vflagsToJ f]
+    | .str r f => .arr [.str "str", optStrToJ r, vflagsToJ f]
+    | .enum vs f => .arr [.str "enum", .arr (vs.map treeToJ), vflagsToJ f]
+    | .list e mn mx f => .arr [.str "list", vsToJ e, .int mn, optIntToJ mx, vflagsToJ f]
+    | .tupleFixed es f => .arr [.str "tuplef", .arr (es.map vsToJ), vflagsToJ f]
+    | .tupleVar e mn mx f => .arr [.str "tuplev", vsToJ e, .int mn, optIntToJ mx, vflagsToJ f]
+    | .dict none ex f => .arr [.str "dict", .null, .bool ex, vflagsToJ f]
+    | .dict (some sc) ex f => .arr [.str "dict", vschemaToJ sc, .bool ex, vflagsToJ f]
+    | .obj c f => .arr [.str "obj", .str (toS c), vflagsToJ f]
+    | .type c d n fz => .arr [.str "type", .str (toS c), optStrToJ d, .bool n, .bool fz]
+    | .union cs f => .arr [.str "union", .arr (cs.map vsToJ), vflagsToJ f]
+    | .callable args none f => .arr [.str "callable", .arr (args.map vsToJ), .null, vflagsToJ f]
+    | .callable args (some r) f => .arr [.str "callable", .arr (args.map vsToJ), vsToJ r, vflagsToJ f]
+  partial def vfieldToJ : VField → J
+    | .mk k v d md => .arr [.str "field", vkeyToJ k, vsToJ v, optStrToJ d, optTreeToJ md]
+  partial def vschemaToJ : VSchema → J
+    | .mk fs name anc md => .arr [.str "schema", .arr (fs.map vfieldToJ), optStrToJ name, .bool anc, optTreeToJ md]
+end
+
 def handle (j : J) : J :=
   match j.getStr? "op" with
   | some "codec" =>
@@ -311,6 +409,38 @@ def handle (j : J) : J :=
       let (_, outs) := run c [] ops
       .obj [("outs", .arr (outs.map outToJ))]
     | _, _ => bad "store"
+  | some "geno_env" =>
+    let kindJ : Kind → J
+      | .any => .str "any" | .bool => .str "bool" | .int => .str "int" | .str => .str "str"
+      | .list => .str "list" | .dict => .str "dict" | .obj c => .arr [.str "obj", .str (toS c)]
+    .obj [("classes", .arr (genoEnv.classes.map fun (c, fs) =>
+      .arr [.str (toS c), .arr (fs.map fun f =>
+        .obj ([("name", .str (toS f.name)), ("kind", kindJ f.kind), ("noneable", .bool f.noneable),
+               ("frozen", .bool f.frozen)] ++
+              (match f.default with
+               | some d => [("default", treeToJ d)]
+               | none => [])))]))]
+  | some "vspec" =>
+    let env : ClassEnv := ⟨[]⟩
+    let answer (jv : JV) : J :=
+      .obj [("json", jvToJ jv),
+            ("rt", match decodeU jv with
+              | .ok (.spec s) => .obj [("ok", vsToJ s)]
+              | .ok (.schema sc) => .obj [("ok", vschemaToJ sc)]
+              | .ok _ => .obj [("err", .str "TypeError")]
+              | .error e => .obj [("err", .str (errName e))])]
+    match (j.get? "spec").bind vsOfJ, (j.get? "schema").bind vschemaOfJ with
+    | some s, _ => answer (vsToJson env s)
+    | none, some sc => answer (schemaToJson env sc)
+    | none, none => bad "vspec"
+  | some "vspec_load" =>
+    match (j.get? "json").bind jvOfJ with
+    | some jv =>
+      .obj [("rt", match decodeU jv with
+        | .ok (.spec s) => .obj [("ok", vsToJ s)]
+        | .ok _ => .obj [("err", .str "TypeError")]
+        | .error e => .obj [("err", .str (errName e))])]
+    | none => bad "vspec_load"
   | some "dna" =>
     match (j.get? "nest").bind nestOfJ, (j.getArr? "cloneable").bind (·.mapM (·.asStr?)) with
     | some nest, some cl =>
